@@ -1072,7 +1072,7 @@ EMPTY_COND_OK = re.compile(r'(Iterator>::next$|Iterator::enumerate$|Iterator>::e
 
 
 def rule_empty_rejected(rep, crate):
-    rid = rep.rule('M-C03b', 'empty-matching patterns are rejected: in Graph::new the construction of states (get_states) is reachable only through the false edge of dfa.has_empty(); the true edge records GraphError::EmptyMatch for the leaves whose minimum length is 0 (a test that looks at nothing but minimum_len) and returns', floor=3)
+    rid = rep.rule('M-C03b', 'empty-matching patterns are rejected: in Graph::new the construction of states (get_states) is reachable only through the false edge of dfa.has_empty(); the true edge records GraphError::EmptyMatch for the leaves whose minimum length is 0 (a test that looks at nothing but minimum_len) and returns', floor=2)
     fn = crate.fns.get('graph::Graph::new')
     if not rep.anchor(rid, 'fn Graph::new', fn is not None):
         return
@@ -1103,7 +1103,7 @@ def rule_empty_rejected(rep, crate):
         for sb in controlling_switches(fn, b):
             if sb not in tregion:
                 continue
-            sl = fn.slice(fn.blocks[sb]['term']['discr'])
+            sl = fn.slice(fn.blocks[sb]['term']['discr'], stop_re=r'Iterator>::next$')
             bad = sorted(c for c in sl.calls if not EMPTY_COND_OK.search(c))
             if bad or ('kind' in sl.field_names()) or ('callback' in sl.field_names()):
                 rep.viol(rid, 'empty:extra-condition', 'the EmptyMatch error is additionally conditioned on %s %s: some empty-matching patterns are let through' % (bad[:3], sorted(sl.field_names() & {'kind', 'callback', 'priority'})), loc(fn, fn.blocks[sb]['term']['line']))
